@@ -31,11 +31,18 @@ RULE = ("cases = (DFA, retain_names) for minify(), plus minify=True paths of uni
         "states over {a,b} incl. partial ones (thorough), then shaped random DFAs ≤7 states: unreachable states, "
         "dead states entered explicitly, dead/non-final initial state, empty/universal languages, duplicated "
         "states, adversarial name pools (-1,-2,… / tuples / frozensets); sequences of 2–4 calls on ONE object (at least one "
-        "with minify=True, whose result is checked for language and minimality); non-trivial = source has ≥3 reachable "
+        "with minify=True, whose result is checked for language and minimality); the same sequences — preceded by 0–2 "
+        "unjudged queries, one step often repeated — on operands built under allow_mutable_automata=True from PLAIN "
+        "set/dict containers (option left on or switched off again for the calls), every minify=True result judged "
+        "(language, minimality, minimal-again, exact retained names) against a FROZEN TWIN = the definition as built; "
+        "non-trivial = source has ≥3 reachable "
         "states and minimisation merges or removes at least one of them; distinct = distinct encoded sources")
 ASSUMPTIONS = [
     "sources are valid DFAs built through the real constructor; no state is literally None",
     "the result is compared up to renaming of states (block ids / counter values are arbitrary)",
+    "mutable-automata option: the caller does not mutate the containers it handed over (the documented contract of the "
+    "option); whether the LIBRARY changes them is C18's clause and only counted here — results are judged against the "
+    "definition as built",
 ]
 EXPLANATION = ("Theorems C05_* (Props/C05.lean) are about the model of _minify; this run ties the model to the code and "
                "evaluates language preservation and exact minimality on the real results with independent oracles.")
@@ -383,17 +390,43 @@ def do_minify_via_op(ctx: Ctx, A: DFA, B: DFA, origin: str, N=None):
     ctx.case(("via", opname, retain, repr(N if N is not None else A), repr(B)) if ok and len(R.states) >= 2 else None)
 
 
-@guarded
-def do_sequence(ctx: Ctx, d: DFA, b: DFA, steps, origin: str):
-    """Calls on ONE object: every minify=True result is evaluated for language AND minimality; the other
-    steps are executed (they are what may disturb per-object caches) and evaluated by C04."""
-    from harness import dfa_sequences
+def expected_names_for_step(step: str, A: DFA):
+    """EXACT retained names of the retain_names=True steps of dfa_sequences.STEPS, computed from the
+    definition `A` by the independent Moore refinement (None for the other steps)."""
+    if step == "d.minify(retain_names=True)":
+        kept = kept_for_minify(A)
+        return expected_block_names(A.transitions, kept, set(A.final_states) & kept, A.input_symbols)
+    if step == "d.to_partial(retain_names=True)":
+        kept = kept_for_minify(A, force_partial=True)
+        return expected_block_names(A.transitions, kept, set(A.final_states) & kept, A.input_symbols)
+    if step == "d.complement(retain_names=True)":
+        al = sorted(A.input_symbols)
+        kept = _reach(A)
+        if any(a not in A.transitions[q] for q in kept for a in al):
+            # the complement is taken of the completed table: the trap joins the non-final (→ final) states;
+            # its name is the library's choice, so only the number of names and the classes WITHOUT it are fixed
+            return None
+        return expected_block_names(A.transitions, kept, kept - set(A.final_states), A.input_symbols)
+    return None
 
+
+def _seq_oracle(ctx: Ctx, judged: DFA):
     def on_dfa(what, srcs, spec, R, replay, minified):
         if not minified:
             return True
-        return check_min_props(ctx, what, srcs, spec, R, replay, d.input_symbols)
-    dfa_sequences.run_sequence(ctx, d, b, steps, origin, on_dfa)
+        step = replay["steps"][replay["failing_step"]]
+        return check_min_props(ctx, what, srcs, spec, R, replay, judged.input_symbols,
+                               expected_names=expected_names_for_step(step, judged))
+    return on_dfa
+
+
+@guarded
+def do_sequence(ctx: Ctx, d: DFA, b: DFA, steps, origin: str):
+    """Calls on ONE object: every minify=True result is evaluated for language AND minimality (and, for the
+    retain_names=True steps, the exact names); the other steps are executed (they are what may disturb
+    per-object caches) and evaluated by C04."""
+    from harness import dfa_sequences
+    dfa_sequences.run_sequence(ctx, d, b, steps, origin, _seq_oracle(ctx, d))
 
 
 def run_sequences(ctx: Ctx, n: int):
@@ -409,10 +442,37 @@ def run_sequences(ctx: Ctx, n: int):
         do_sequence(ctx, d, b, steps, "sequence_on_one_object")
 
 
+@guarded
+def do_mutable_sequence(ctx: Ctx, ref_d: DFA, ref_b: DFA, pre, steps, option_during_calls: bool, origin: str):
+    """Mutable-automata option: live operands built from plain set/dict containers; every minify=True result is
+    judged (language, minimality, minimal-again, exact retained names) against the FROZEN twins."""
+    from harness import dfa_sequences
+    dfa_sequences.run_mutable_sequence(ctx, ref_d, ref_b, pre, steps, option_during_calls, origin,
+                                       _seq_oracle(ctx, ref_d))
+
+
+def run_mutable_option(ctx: Ctx, n: int):
+    """DFAs built under allow_mutable_automata=True from plain containers; minify / to_partial / the
+    minify=True paths of the other operations called on them — also twice, also after queries."""
+    from harness import dfa_sequences
+    rng = ctx.rng
+    minifying = [s for s in dfa_sequences.STEP_NAMES if dfa_sequences.STEPS[s][3]]
+    for _ in range(n):
+        al = rng.choice(gen.ALPHABETS)
+        # partial operands with live non-final states (the trimming path) and complete ones, half each
+        d = gen.rand_dfa(rng, 6, al, partial=True if rng.random() < 0.5 else None)
+        b = gen.rand_dfa(rng, 4, al)
+        pre, steps, on = dfa_sequences.draw_mutable_history(rng)
+        if not any(dfa_sequences.STEPS[s][3] for s in steps):
+            steps.append(rng.choice(minifying))
+        do_mutable_sequence(ctx, d, b, pre, steps, on, "mutable_option_sequence")
+
+
 def run(ctx: Ctx):
     rng = ctx.rng
     run_part_refine(ctx, ctx.budget(600, 20000))
     run_sequences(ctx, ctx.budget(500, 10000))
+    run_mutable_option(ctx, ctx.budget(600, 12000))
     # 0. corpus: triggers of repaired defects (F1, F19, F16 neighbourhood)
     for A in corpus():
         for retain in (False, True):
@@ -460,6 +520,7 @@ def search(ctx: Ctx):
             al = rng.choice(gen.ALPHABETS)
             do_minify_via_op(ctx, gen.rand_dfa(rng, 5, al), gen.rand_dfa(rng, 4, al), "search")
             run_sequences(ctx, 1)
+            run_mutable_option(ctx, 1)
 
 
 def corpus():
@@ -487,7 +548,10 @@ def replay(ctx: Ctx, path: str) -> int:
     if rp.get("op") == "part_refine":
         print("replay: PART_REFINE cases are correspondence-only (model vs. PartitionRefinement); re-run by seed")
         return 0
-    if rp.get("op") == "sequence":
+    if rp.get("op") == "sequence" and rp.get("mutable"):
+        do_mutable_sequence(ctx, eval(rp["A"], env), eval(rp["B"], env), rp.get("pre", []), rp["steps"],
+                            rp.get("option_during_calls", True), "replay")
+    elif rp.get("op") == "sequence":
         do_sequence(ctx, eval(rp["A"], env), eval(rp["B"], env), rp["steps"], "replay")
     elif rp.get("via"):
         print("replay: via-operation cases are replayed through C04's replay of the same operands")
